@@ -87,6 +87,11 @@ def answer (toks : List String) : Option String :=
   | ["tdLogpdf", K, idx, kxi, kg, cur, prop, birth, inm] => do
       pure (showRat (Gen.tdLogpdf (← K.toInt?) (← parseRat idx) (← kxi.toInt?) (← kg.toInt?)
         (← parseList parseB cur) (← parseList parseB prop) (← parseList parseRat birth) (← parseList parseRat inm)))
+  | ["tdJump", K, k, newk, cur, chosen] => do
+      let r := Gen.tdJump (← K.toInt?) (← k.toInt?) (← newk.toInt?) (← parseList parseB cur) (← parseList String.toInt? chosen)
+      let ix := fun (l : List (Int × Unit)) => showList (fun e => toString e.1) l
+      let ch := showList (fun (e : List Int × Int) => s!"{showList toString e.1}:{e.2}") r.2.2.1
+      pure s!"{r.1} {showList showB r.2.1} {ch.replace "," ";"} {ix r.2.2.2.1} {ix r.2.2.2.2.1} {ix r.2.2.2.2.2}"
   | ["stateKeys"] => pure (",".intercalate (Gen.chainStateKeys.map (·.1)))
   | ["stateReads"] => pure (",".intercalate ((Gen.chainSetStateFlow.filter (fun f => f.2.1 ≠ "")).map (·.2.1)))
   | _ => none
